@@ -31,15 +31,16 @@ func runSegSeq(kp kindPair, c0, c1 int, ops string) (out []cd) {
 		out = append(out, cd{clause, detail})
 	}
 	h := NewH()
-	h.NoMon = true
 	h.Shape = Instant
-	x := vrt.Run(nil, nil, nil, func() {
+	h.CrashProp, h.HangProp = "C01", "C01"
+	// the whole oracle suite judges the sequence as well (every-point monitors, rest counts, final judgement)
+	x := vrt.Run(nil, nil, func(sc *vrt.Sched) { sc.Monitor = h.monitor }, func() {
 		queues.VrtSetCaps(c0, c1)
 		w := h.NewWorker(kp.W, 1)
 		q := w.Bind(kp.Q, nil)
 		tag := 0
 		rest := func(when string) {
-			vrt.Quiesce()
+			h.Quiesce(true)
 			want := 0
 			for _, jr := range h.Jobs {
 				if jr.Accepted && len(jr.Starts) == 0 && !(jr.St != nil && jr.St.Status() == "Closed") {
@@ -97,7 +98,14 @@ func runSegSeq(kp kindPair, c0, c1 int, ops string) (out []cd) {
 				add("C04.seq-order", "jobs of one producer on a concurrency-1 worker did not run in acceptance order")
 			}
 		}
+		h.End()
 	})
+	if x.EngineErr == "" {
+		h.Judge(x)
+		for _, v := range h.V {
+			add(v.Clause, v.Detail)
+		}
+	}
 	if x.Crash != "" {
 		add("C01.crash", firstLine(x.Crash)+" @ "+x.CrashFrame)
 	}
@@ -155,7 +163,7 @@ func init() {
 	for _, kp := range []kindPair{{Plain, Fifo}, {ResW, Fifo}, {ErrW, Prio}} {
 		kp := kp
 		Register(&Scenario{
-			Name: "seq-segment/" + kp.String() + "/q", Props: []string{"C01", "C17", "C04"}, Seq: true, Only: "quick",
+			Name: "seq-segment/" + kp.String() + "/q", Props: []string{"C01", "C17", "C04", "C03", "C09", "C10", "C16"}, Seq: true, Only: "quick",
 			SeqRun: func(r *SeqReport) {
 				r.Exhaustive = true
 				enumSegSeq(r, kp, 2, 3, "AD", 10, "")
@@ -167,7 +175,7 @@ func init() {
 		for i := 0; i < len(segOps); i++ {
 			first := string(segOps[i])
 			Register(&Scenario{
-				Name: "seq-segment/" + kp.String() + "/d9/" + first, Props: []string{"C01", "C17", "C04"}, Seq: true, Only: "thorough",
+				Name: "seq-segment/" + kp.String() + "/d9/" + first, Props: []string{"C01", "C17", "C04", "C03", "C09", "C10", "C16"}, Seq: true, Only: "thorough",
 				SeqRun: func(r *SeqReport) {
 					r.Exhaustive = true
 					enumSegSeq(r, kp, 2, 3, segOps, 9, first)
